@@ -349,7 +349,10 @@ func typePkg(t types.Type) *types.Package {
 
 // ---------------------------------------------------------------- map iteration (insertion order in the spike)
 
-type BoxV struct{ v Value }
+type BoxV struct {
+	v   Value
+	typ string // message type that was marshalled ("" = not a protobuf message)
+}
 
 type IterV struct {
 	e   []mapEntry
